@@ -617,13 +617,10 @@ func flowsFrom(v ssa.Value, pred func(ssa.Value) bool) bool {
 		case *ssa.BinOp:
 			return walk(x.X, d+1) || walk(x.Y, d+1)
 		case *ssa.Call:
-			// builtin append / copy-like helpers: follow args
-			if b, ok := x.Call.Value.(*ssa.Builtin); ok && (b.Name() == "append") {
-				for _, a := range x.Call.Args {
-					if walk(a, d+1) {
-						return true
-					}
-				}
+			// builtin append: the result may share the backing array of its
+			// first operand only (the appended elements are copied)
+			if b, ok := x.Call.Value.(*ssa.Builtin); ok && (b.Name() == "append") && len(x.Call.Args) > 0 {
+				return walk(x.Call.Args[0], d+1)
 			}
 		}
 		return false
